@@ -127,8 +127,13 @@ class World:
 
 
 # ------------------------------------------------------------------ Coq literals
+def ckey(k):
+    """dict keys: the default-namespace key None is written as the one-character string chr(0) on the Coq side"""
+    return cstr("\x00") if k is None else cstr(k)
+
+
 def cdict(d):
-    return clist(cpair(cstr(k), cstr(v)) for k, v in d)
+    return clist(cpair(ckey(k), cstr(v)) for k, v in d)
 
 
 def cz(i):
@@ -153,9 +158,9 @@ def coq_cmd(w, c):
     if k == "extras":
         return f"KEdit (EAddExtras {c[1]} {cstr(c[2])} {cstr(c[3])})"
     if k == "ns":
-        return f"KEdit (ENs (Declare {c[1]} {cstr(c[2])} {cstr(c[3])}))"
+        return f"KEdit (ENs (Declare {c[1]} {ckey(c[2])} {cstr(c[3])}))"
     if k == "rmns":
-        return f"KEdit (ENs (Undeclare {c[1]} {cstr(c[2])}))"
+        return f"KEdit (ENs (Undeclare {c[1]} {ckey(c[2])}))"
     if k == "attach":
         return f"KEdit (ENs (Attach {c[1]} {c[2]} {cz(c[3])}))"
     if k == "rmchild":
